@@ -25,7 +25,7 @@ MUTATING = {'create_study', 'delete_study', 'set_state', 'create_trial',
 # ---------------------------------------------------------------- strategies
 def op_strategy(max_suggest=3, md=True, optimal=True, early_stop=True,
                 owners=None, sids=None):
-  owner = st.sampled_from(owners or ['o0'] * 7 + ['o1'])
+  owner = st.sampled_from(owners or ['o0'] * 5 + ['o1'])
   sid = st.sampled_from(sids or ['s0'] * 7 + ['s1'])
   tid = st.sampled_from([1, 1, 1, 2, 2, 2, 3, 3, 4, 5, 6, 9])
   worker = st.sampled_from(WORKERS)
@@ -43,7 +43,8 @@ def op_strategy(max_suggest=3, md=True, optimal=True, early_stop=True,
       'md': st.lists(st.tuples(ns, key, mdval).map(list), max_size=1),
   })
   complete_spec = st.fixed_dictionaries({
-      'final': st.one_of(st.none(), value, value),
+      # 'empty' = a final measurement that is present but carries no metrics
+      'final': st.one_of(st.none(), value, value, st.just('empty')),
       'infeasible': st.sampled_from([False, False, True]),
       'reason': st.sampled_from(['', 'bad']),
   })
@@ -88,6 +89,11 @@ def history_strategy(min_ops=4, max_ops=40, **kw):
       [['create_study', 'o0', 's0'], ['suggest', 'o0', 's0', 'w1', 2]],
       [['create_study', 'o0', 's0'], ['suggest', 'o0', 's0', 'w1', 2],
        ['complete', 'o0', 's0', 1,
+        {'final': 1.0, 'infeasible': False, 'reason': ''}]],
+      # two owners with a study of the same id, trials and operations in both
+      [['create_study', 'o0', 's0'], ['create_study', 'o1', 's0'],
+       ['suggest', 'o0', 's0', 'w1', 2], ['suggest', 'o1', 's0', 'w1', 2],
+       ['complete', 'o1', 's0', 1,
         {'final': 1.0, 'infeasible': False, 'reason': ''}]],
   ])
   return st.tuples(prefix, st.lists(op_strategy(**kw), min_size=min_ops,
@@ -223,7 +229,9 @@ def exec_real(s, op, scribble=True):
           name=sm.tname(op[1], op[2], op[3]),
           trial_infeasible=spec['infeasible'],
           infeasible_reason=spec['reason'] if spec['infeasible'] else '')
-      if spec['final'] is not None:
+      if spec['final'] == 'empty':
+        req.final_measurement.step_count = 5
+      elif spec['final'] is not None:
         req.final_measurement.CopyFrom(svc.measurement(spec['final']))
       r = s.CompleteTrial(req)
       out = svc.norm_trial(r)
@@ -310,7 +318,11 @@ def exec_model(m, op, real=None, s=None, delivered=None):
                                svc.measurement(op[4], step=1))), problems
     if kind == 'complete':
       spec = op[4]
-      final = None if spec['final'] is None else svc.measurement(spec['final'])
+      if spec['final'] == 'empty':
+        final = study_pb2.Measurement(step_count=5)
+      else:
+        final = (None if spec['final'] is None
+                 else svc.measurement(spec['final']))
       return ('ok', m.complete(op[1], op[2], op[3], final, spec['infeasible'],
                                spec['reason'] if spec['infeasible'] else '')
               ), problems
